@@ -13,6 +13,10 @@ FILES = ['obj.c', 'str.c', 'ustr.c', 'mbuff.c', 'objpair.c', 'tok.c', 'url.c', '
          'array.c', 'linked_list.c', 'dlinked_list.c', 'strings.c', 'conf.c', 'msgs.c']
 TSV = os.path.join(ROOT, 'gen', 'c16_guards.tsv')
 INC = os.path.join(ROOT, 'harness', 'c16_cases.inc')
+PROBE_TSV = os.path.join(ROOT, 'gen', 'c16_probe.tsv')
+PROBE_INC = os.path.join(ROOT, 'harness', 'c16_probe_cases.inc')
+TRANS_TSV = os.path.join(ROOT, 'gen', 'c16_transitive.tsv')
+EXPL_TSV = os.path.join(ROOT, 'gen', 'c16_explicit.tsv')
 
 
 def strip_comments(s):
@@ -369,9 +373,48 @@ def freeze(srcroot):
     print('rows', len(rows), 'unguarded-with-pointer-params', len(listed_unguarded))
 
 
-def load_rows():
+def probe_rows(srcroot):
+    """Every (entry point, route, pointer parameter) that has NO row in the static table: candidates for guards that sit one
+    or more calls further down (spif_x_contains -> spif_x_find's REQUIRE, spif_tok_new_from_fp -> spif_str_new_from_fp's
+    ASSERT).  Whether such a position is in fact guarded is not decided from the text but by running the call on the tree
+    the table is frozen from (checks/c16_probe.py); only positions that demonstrably fail soft there become obligations."""
+    have = {(r['func'], r['route'], r['table'], r['slot'], r['np']) for r in load_rows(TSV)}
+    have |= {(r['func'], r['route'], r['table'], r['slot'], r['onp']) for r in load_rows(TSV) if r['onp'] >= 0}
     rows = []
-    for l in open(TSV):
+    for f in FILES:
+        funcs, tables = parse_file(os.path.join(srcroot, 'src', f))
+        slot_of = {}
+        for t in tables:
+            if not t['pub']:
+                continue
+            for i, fn in enumerate(t['slots']):
+                if fn:
+                    slot_of.setdefault(fn, []).append((t['pub'][-1], i))
+        for fn in funcs:
+            routes = []
+            if not fn['static']:
+                routes.append(('direct', '', -1))
+            for pub, idx in slot_of.get(fn['name'], []):
+                routes.append(('table', pub, idx))
+            for kind, pub, idx in routes:
+                if kind == 'direct' and any(r[0] == 'table' for r in routes) and fn['static']:
+                    continue
+                for pi, (ty, n) in enumerate(fn['params']):
+                    if not is_pointer_type(ty) or (fn['name'], kind, pub, idx, pi) in have:
+                        continue
+                    rows.append([f, fn['name'], kind, pub, str(idx), fn['rtype'],
+                                 '; '.join('%s|%s' % (t2, n2) for t2, n2 in fn['params']), str(pi), '-1', 'PROBE', 'PROBE', ''])
+    with open(PROBE_TSV, 'w') as out:
+        out.write('# candidates for transitive guards (generated by gen_c16.py --probe-rows; input of checks/c16_probe.py)\n')
+        for r in rows:
+            out.write('\t'.join(r) + '\n')
+    print('probe rows', len(rows))
+
+
+def load_rows(path=None):
+    rows = []
+    paths = [path] if path else [TSV] + [x for x in (TRANS_TSV, EXPL_TSV) if os.path.exists(x)]
+    for l in (x for pth in paths for x in open(pth)):
         if l.startswith('#') or not l.strip():
             continue
         a = l.rstrip('\n').split('\t')
@@ -417,8 +460,8 @@ def sample(ty, name, fn):
 PRIVATE_TYPES = re.compile(r'^spif_(array|linked_list|dlinked_list)_iterator_t$')
 
 
-def emit():
-    rows = load_rows()
+def emit(probe=False):
+    rows = load_rows(PROBE_TSV) if probe else load_rows()
     for r in rows:      # iterator structs are private to their .c files: pass them as opaque pointers
         r['params'] = [('void *' if PRIVATE_TYPES.match(ty) else ty, nm) + (('priv:' + ty,) if PRIVATE_TYPES.match(ty) else ()) for ty, nm in r['params']]
         if PRIVATE_TYPES.match(r['rtype']):
@@ -510,6 +553,8 @@ def emit():
                 body.append('    res->value_ok = (r == SPIF_CMP_GREATER);')
             elif vc == 'CMPE':
                 body.append('    res->value_ok = (r == SPIF_CMP_EQUAL);')
+            elif vc == 'PROBE':
+                body.append('    res->value_ok = 1;')
             body.append('    snprintf(res->got, sizeof res->got, "%lld", (long long) (intptr_t) r);' if vc != 'NAN' else '    snprintf(res->got, sizeof res->got, "%g", (double) r);')
         body.append('    c16_snap_check(res);\n}')
         out.append('\n'.join(body))
@@ -522,7 +567,7 @@ def emit():
     out.append('static struct c16_case C16_CASES[] = {\n' + '\n'.join(table) + '\n};')
     out.append('#define C16_NCASES %d' % n)
     out.append('static const char *C16_SKIPPED[] = {%s 0};' % ''.join('"%s", ' % s for s in skipped))
-    open(INC, 'w').write('\n\n'.join(out) + '\n')
+    open(PROBE_INC if probe else INC, 'w').write('\n\n'.join(out) + '\n')
     print('emitted', n, 'cases; skipped', len(skipped))
     for s in skipped:
         print('  skipped:', s)
@@ -552,6 +597,9 @@ if __name__ == '__main__':
         freeze(a[1] if len(a) > 1 else '/repo')
     elif a and a[0] == '--emit':
         emit()
+    elif a and a[0] == '--probe-rows':
+        probe_rows(a[1] if len(a) > 1 else '/repo')
+        emit(probe=True)
     elif a and a[0] == '--diff':
         diff(a[1] if len(a) > 1 else os.environ.get('LIBAST_SRC', '/repo'))
     else:
